@@ -75,7 +75,11 @@ func run(c *harness.Ctx, i int) {
 	case 0, 1, 2:
 		storeCrash(c, i)
 	case 3, 4:
-		extractCrash(c, i)
+		if i%30 == 3 {
+			extractSyscallCrash(c)
+		} else {
+			extractCrash(c, i)
+		}
 	case 5:
 		linearizable(c)
 	}
@@ -577,4 +581,44 @@ func linearizable(c *harness.Ctx) {
 	c.NonTrivial("linearizable|ids%d|g%d|u%v", nIDs, workers, uncompressed)
 	c.Sample(map[string]interface{}{"leg": "linearizability", "ids": nIDs, "goroutines": workers, "ops": len(hist)})
 	_ = context.Background
+}
+
+// extractSyscallCrash: a temp-file extract over an existing destination is killed (strace injection, unhooked binary)
+// on entering its k-th rename / unlink system call: the destination keeps its previous state.
+func extractSyscallCrash(c *harness.Ctx) {
+	rng := c.Rng
+	dir := c.CaseDir()
+	sz := dsu.Sizes{Min: 1024, Avg: 2048, Max: 4096}
+	blob := dsu.MakeBlob(rng, "random", 2048*(3+rng.Intn(6)), sz)
+	idx := dsu.RefIndex(blob, sz)
+	store := filepath.Join(dir, "store")
+	_, err := dsu.FillLocalStore(store, blob, idx, false)
+	dsu.Must(err)
+	idxFile := filepath.Join(dir, "blob.caibx")
+	dsu.Must(dsu.WriteIndex(idxFile, idx))
+	dest := filepath.Join(dir, "dest")
+	old := []byte("old content of the destination\n")
+	dsu.WriteFile(dest, old)
+	set := []string{"rename,renameat,renameat2", "unlink,unlinkat"}[rng.Intn(2)]
+	k := 1 + rng.Intn(2)
+	c.Info("extract-syscall-crash kill at %s #%d", set, k)
+	c.LogInfo()
+	cmd := exec.Command("strace", "-f", "-o", "/dev/null", "-e", "trace="+set, "-e", fmt.Sprintf("inject=%s:signal=KILL:when=%d", set, k),
+		cliPlain, "extract", "-n", "2", "-s", store, idxFile, dest)
+	cmd.Env = append(os.Environ(), "HOME="+dir)
+	rerr := cmd.Run()
+	got, gerr := os.ReadFile(dest)
+	c.Count("extract_syscall_crash_runs", 1)
+	if rerr != nil {
+		c.Count("children_died_at_crash_point", 1)
+		if gerr != nil || !bytes.Equal(got, old) {
+			c.Violation("dest-touched:syscall", "extract (temp-file mode) died on entering %s #%d and the destination no longer holds its previous content (read error %v, %d bytes)", set, k, gerr, len(got))
+			return
+		}
+		c.NonTrivial("extract-syscall|%s|k%d", set, k)
+	} else if !bytes.Equal(got, blob) {
+		c.Violation("extract-success-wrong", "extract exited 0 but the destination differs from the blob")
+		return
+	}
+	c.Sample(map[string]interface{}{"leg": "extract-syscall-crash", "syscalls": set, "k": k, "child_died": rerr != nil})
 }
